@@ -73,6 +73,7 @@ def ConnCase.subst (c : ConnCase) (s : String) : Option String :=
     | fuel + 1 =>
       match cs with
       | [] => some acc.reverse
+      | '^' :: '_' :: t => go fuel t (' ' :: acc)     -- `^_` stands for a space
       | '@' :: t =>
         let ds := t.takeWhile isDigit
         if ds.isEmpty then none else
@@ -711,11 +712,15 @@ def runTconn (ws : List String) : String :=
     match host?, stripPrefix "n=" names, (canonNat payload).filter (· ≤ 65536) with
     | some h, some names, some _ =>
       let ns := (names.splitOn ";").filter (· ≠ "")
-      let verify (cert : List String × Bool) (name : String) : Bool := cert.2 && covers isIpD cert.1 name
+      -- the per-library reading of the name handed over (measured on the unchanged tree, `Connect.verifiedName`):
+      -- rustls drops ONE trailing root dot and ignores certificate names ending in a dot, OpenSSL is exact
+      let verify (cert : List String × Bool) (name : String) : Bool :=
+        cert.2 && covers isIpD (certNamesFor lib cert.1) (verifiedName lib name)
       match tlsConnect (validNameFor lib) verify h (ns, ca == "good") with
       | .invalidInput => "err invalid-input io=0"
       | .handshakeError _ => "err handshake"
       | .established n =>
+        let n := verifiedName lib n
         let sni := if isIpD n then "-" else if srv == "r" then lowerStr n else n
         s!"ok sni={sni} echo=ok"
     | _, _, _ => "bad-op"
